@@ -95,6 +95,12 @@ pub trait CompactionOperations: Send + Sync {
 /// If a function needs multiple locks, it must acquire them in this order.
 /// See `rotate_memtable()`, `flush_immutable_to_sst()` for examples.
 pub(crate) struct CoreInner {
+	/// Held for the whole of one memtable flush (pick the oldest immutable
+	/// memtable, write its table, install it). The flush task is not the only
+	/// one that flushes - a checkpoint flushes too - and two flushes of the same
+	/// memtable truncate each other's table file and install it twice.
+	pub(crate) flush_lock: parking_lot::Mutex<()>,
+
 	/// The active memtable (write buffer) that receives all new writes.
 	///
 	/// In LSM trees, all writes first go to an in-memory structure for fast
@@ -210,6 +216,7 @@ impl CoreInner {
 		};
 
 		Ok(Self {
+			flush_lock: parking_lot::Mutex::new(()),
 			opts,
 			active_memtable,
 			immutable_memtables,
@@ -504,6 +511,9 @@ impl CoreInner {
 	/// 2. Flushes it to SST via flush_immutable_to_sst (which also removes from queue)
 	/// 3. Schedules async WAL cleanup
 	fn flush_oldest_immutable_to_sst(&self) -> Result<Option<Arc<Table>>> {
+		// One flush at a time (see `flush_lock`)
+		let _one_flush = self.flush_lock.lock();
+
 		// Get the oldest immutable entry (clone to release lock before I/O)
 		let entry = {
 			let guard = self.immutable_memtables.read()?;
